@@ -13,6 +13,24 @@ CLAIMS = {
          "TypeSum is an upper bound / commutative / idempotent, TypeIntersection is contained in both operands, NonNullable removes exactly NULL, and for every "
          "value within the C09 bounds the value matches Value.Type(). Two known findings (object/tuple deep merge, unnamed object fields) are excluded by narrow predicates and re-exhibited on every run.",
          "Bounds: nesting depth <= 1 per operand (values: depth 2), <= 1-2 fields/elements, field names from {a,b,c}.", "§5 C10"),
+ "C03": ("For every input table/changelog within the bounds the real SimpleGroupBy and CustomTriggerGroupBy (end-of-stream trigger) nodes, run symbolically with the real aggregate prototypes, return one row per distinct key (NULL is a key) holding count/sum/min/max, the DISTINCT variants and avg over the group's non-NULL inputs (NULL for none), and agree with each other.",
+         "Bounds: <= 3 rows (avg: 2), 0-2 key columns, Int|NULL cells; node level (parser/typechecker overload resolution outside).", "§5 C03"),
+ "C05": ("For every table within the bounds and every n in 0..K including 0: nodes.Limit, OrderSensitiveTransform (with/without keys and limit) and the batch OutputPrinter return exactly min(n, rows) rows forming a sub-multiset of the input; with ORDER BY they are the first n of the sort order counting duplicates individually.",
+         "Bounds: <= 3 rows from a small value domain (duplicates arise), n <= 3, 0-2 keys; the output-mode dispatch in cmd/root.go is reproduced by the harness, not executed.", "§5 C05"),
+ "C06": ("For every operator kind (Filter, Map, Distinct, OrderSensitiveTransform, Limit, Unnest, EventTimeBuffer, group-bys, StreamJoin/OuterJoin either side, LookupJoin either side, query expressions, output printers) placed over a source that fails after k records (k forked), and for failing expressions, Run/Evaluate returns a non-nil error.",
+         "Bounds: k <= 2 records before the failure; process exit status and malformed rows inside the real decoders are outside.", "§5 C06"),
+ "C14": ("For every aggregate prototype (count, sum, avg, min, max, array_agg and DISTINCT variants over Int/Float/Duration/Time) and every valid add/retract history within the bounds, the real aggregate reports what the same aggregate built fresh reports for the net multiset (plus an independent scalar reference).",
+         "Bounds: histories of <= 3 (quick) / 5 (thorough) steps; Float sums only on an integer-valued table (|v| < 2^26).", "§5 C14"),
+ "C15": ("For every valid input changelog within the bounds, each operator (Filter, Map, Distinct, Unnest, OrderSensitiveTransform, EventTimeBuffer, SimpleGroupBy, LookupJoin, StreamJoin/OuterJoin with retractions) emits a changelog that never retracts an absent row and whose consolidation equals the operator applied to the consolidated input.",
+         "Bounds: <= 3 events (joins 2+1), Int|NULL cells; one known finding (lookup join retraction order) excluded by predicate.", "§5 C15"),
+ "C16": ("For every trigger set (counting n=1..3, watermark, end of stream and their combinations) and every watermarked stream with retractions within the bounds, the consolidated output of the real CustomTriggerGroupBy (+EventTimeBuffer) at end of stream equals the reference grouping of the consolidated input.",
+         "Bounds: streams of 2 (quick) / 3 (thorough, single triggers) events.", "§5 C16"),
+ "C17": ("For every event sequence (KeyReceived/WatermarkReceived/EndOfStream/Poll over 2 keys) within the bounds each real trigger (counting, watermark, end-of-stream, multi) polls exactly the keys a reference model polls; at node level, at every forwarded watermark the output holds exactly the results of the keys due.",
+         "Bounds: sequences of <= 4 (quick) / 5 (thorough) events.", "§5 C17"),
+ "C18": ("For every watermarked stream without late records within the bounds: RecordEventTimeBuffer/EventTimeBuffer release every record unchanged, in event-time order, before the first watermark >= its time and the rest at end of stream; buffers, group-bys and joins forward non-decreasing watermarks and emit no record at or below an already emitted watermark (two known findings excluded by predicate).",
+         "Bounds: <= 4 events (joins 2 per side), event times from a 3-value domain.", "§5 C18"),
+ "C22": ("For every changelog with watermarks within the bounds, at each watermark W the real InternallyConsistentOutputStreamWrapper has emitted exactly the consolidated input records with event time <= W, never emits a record that was not in its input, and has emitted everything by end of stream.",
+         "Bounds: <= 3 events, values from a 2-value domain, 3 event times.", "§5 C22"),
  "C01": ("For each query of a 14-shape single-source catalogue (WHERE, projections, DISTINCT, ORDER BY, LIMIT, subquery in FROM, WITH, COALESCE) and every table within the bounds, the real pipeline "
          "(SQL parser, logical plan, typechecker, optimizer, Materialize, execution nodes, top-level ORDER BY/LIMIT wiring) executed symbolically returns exactly the multiset (and order) a hand-written reference of SQL semantics defines.",
          "Bounds: t(a,b) 0..2 (quick) / 0..3 (thorough) rows, cells Int over all 2^64 values or NULL. Partial: catalogue queries only, Int|NULL columns only.", "§5 C01"),
